@@ -1,6 +1,7 @@
 package sim
 
 import (
+	"io/ioutil"
 	"encoding/hex"
 	"encoding/json"
 	"fmt"
@@ -39,6 +40,10 @@ type InitSpec struct {
 	CustomPos bool            `json:"custom_pos"`
 	Pruning   *[2]int64       `json:"pruning,omitempty"` // keepRecent, keepEvery; nil = zero value of the multistore
 	MaxGas    int64           `json:"max_gas"`
+	// SecpValidators: the consensus parameters also allow secp256k1 validator keys
+	SecpValidators bool `json:"secp_validators,omitempty"`
+	// Trace: the application runs with a store tracer set (writes go to a discarded sink)
+	Trace bool `json:"trace,omitempty"`
 }
 
 type VoteSpec struct {
@@ -176,6 +181,7 @@ type Env struct {
 	H         int64 // last committed height
 	InBlock   bool
 	blockTxs  [][]byte
+	blockCodes []uint32 // DeliverTx result codes of blockTxs (the indexer stores the result with the transaction)
 	CurBegin  *BeginSpec
 	CurTime   time.Time
 	NoSnap    bool // skip snapshots (pure speed runs)
@@ -256,6 +262,9 @@ func (e *Env) newApp() (*App, error) {
 	o.RPCAddr = e.Idx.Addr
 	o.CustomPos = e.Init.CustomPos
 	o.Pruning = pruningOf(e.Init.Pruning)
+	if e.Init.Trace && o.Tracer == nil {
+		o.Tracer = ioutil.Discard
+	}
 	return NewApp(e.DB, o)
 }
 
@@ -323,6 +332,10 @@ func (e *Env) InitChain(db dbm.DB, spec *InitSpec) *Call {
 			Validator: &abci.ValidatorParams{PubKeyTypes: []string{tmtypes.ABCIPubKeyTypeEd25519}},
 		},
 	}
+	if spec.SecpValidators {
+		req.ConsensusParams.Validator.PubKeyTypes = append(req.ConsensusParams.Validator.PubKeyTypes, tmtypes.ABCIPubKeyTypeSecp256k1)
+		e.Chain.KeyTypes = []string{tmtypes.ABCIPubKeyTypeEd25519, tmtypes.ABCIPubKeyTypeSecp256k1}
+	}
 	c.Panic, c.Stack = guarded(func() { c.ResInit = e.A.InitChain(req) })
 	if c.Panic == "" && !e.NoChain {
 		c.ApplyErr = e.Chain.Init(c.ResInit.Validators)
@@ -342,7 +355,7 @@ func (e *Env) BeginBlock(b *BeginSpec, ext []ExtAction) *Call {
 	c.Time = c.Begin.Header.Time
 	c.Pre = e.Last()
 	e.A.Ext.Pending = append(e.A.Ext.Pending, ext...)
-	e.CurBegin, e.CurTime, e.InBlock, e.blockTxs = b, c.Time, true, nil
+	e.CurBegin, e.CurTime, e.InBlock, e.blockTxs, e.blockCodes = b, c.Time, true, nil, nil
 	e.Chain.Times[b.Height] = c.Time
 	c.Panic, c.Stack = guarded(func() { c.ResBegin = e.A.BeginBlock(c.Begin) })
 	e.finish(c)
@@ -381,6 +394,7 @@ func (e *Env) DeliverTx(bz []byte, label string, spec *TxSpec) *Call {
 	c.Pre = e.Last()
 	c.Panic, c.Stack = guarded(func() { c.ResDeliver = e.A.DeliverTx(abci.RequestDeliverTx{Tx: bz}) })
 	e.blockTxs = append(e.blockTxs, bz)
+	e.blockCodes = append(e.blockCodes, c.ResDeliver.Code)
 	e.finish(c)
 	return c
 }
@@ -426,10 +440,14 @@ func (e *Env) Commit() *Call {
 	if c.Panic == "" {
 		e.H++
 		e.InBlock = false
-		for _, tx := range e.blockTxs {
-			e.Idx.Add(tmtypes.Tx(tx).Hash(), e.H)
+		for i, tx := range e.blockTxs {
+			code := uint32(0)
+			if i < len(e.blockCodes) {
+				code = e.blockCodes[i]
+			}
+			e.Idx.AddResult(tmtypes.Tx(tx).Hash(), e.H, code)
 		}
-		e.blockTxs = nil
+		e.blockTxs, e.blockCodes = nil, nil
 	}
 	e.finish(c)
 	return c
